@@ -4,17 +4,47 @@ import json, os
 HERE = os.path.dirname(os.path.dirname(os.path.abspath(__file__)))
 ALL = ['C%02d' % i for i in range(1, 21)]
 
+TV_NOTE = ('trusted: acorn parser, node (replays), z3 5.1, the instrumenter/runtime in engine/jsx (any unsupported construct aborts the path as inconclusive; solver models are replayed on go vs gopherjs+node before a violation is reported), '
+           'the hand-written references in harness/<id>/check.py and vlib/gospec.py / vlib/utf8spec.py. "For all programs" is claimed only for the listed corpus; for each program the claim is for all inputs within the stated bounds.')
+TV_TECH = 'symbolic execution of the JavaScript emitted by the real compiler (instrumented, with the real prelude) + z3 comparison with a specification-derived reference; counterexamples replayed on go vs gopherjs+node'
+
+
+def tv(text, ref, **kw):
+    d = dict(category='translation_validation', text=text, design_ref=ref, note=TV_NOTE, technique=TV_TECH)
+    d.update(kw)
+    return d
+
+
 CHECKS = {
- 'C06': dict(
-    category='translation_validation',
-    text='For every (operator, operand type, operand shape) of a generated matrix the Go one-liner is compiled by the real compiler and the emitted JavaScript, '
-         'together with the real prelude helpers it calls, is executed symbolically for ALL operand values; z3 decides per path that value and panic behaviour equal the '
-         'operator table of the Go specification. Full operand width except 64-bit division/remainder, which is bounded (2^12 quick, 2^24 thorough). '
-         '"For all programs" is claimed only for the listed matrix.',
-    design_ref='DESIGN.md §4 C06',
-    note='trusted: acorn parser, node (replays), z3 5.1, the instrumenter/runtime in engine/jsx (validated against node on concrete vectors), '
-         'the hand-written operator table vlib/gospec.py. Doubles holding integers are modelled as integers with exactness (<=2^53) checked.',
-    technique='symbolic execution of compiler-emitted JavaScript + SMT (z3) equivalence with a spec-derived operator table; counterexamples replayed on go vs gopherjs+node'),
+ 'C02': tv('Each dynamic call of a yield intrinsic is a symbolic boolean: the goroutine suspends exactly as a blocking runtime primitive would ($block, {$blk} frame, $schedule) or not. '
+           'For a corpus of 16 programs (yield reached through direct/method/method-value/method-expression/interface/closure/generic calls, in argument lists, && / ||, loops, switch, '
+           'defer+named results, return with blocking defers, panic/recover, package initialisers, another goroutine) every subset of yield points and all int16 inputs give the specified trace.', 'DESIGN.md §4 C02'),
+ 'C03': dict(category='model_checking',
+             text='27 small closed systems (<=4 goroutines x <=4 channel ops, capacities 0..2 and nil, select with/without default, close, range) are compiled and the real $send/$recv/$close/$select/'
+                  '$go/$schedule/$runScheduled are executed under every resolution of Math.random, the time-slice break (symbolic clock) and timer order, with symbolic int8 payloads; each path must be an '
+                  'outcome of an explicit-state reference of Go channel semantics (value identities decided by z3).', design_ref='DESIGN.md §4 C03',
+             note='trusted: the reference semantics (class Ref in harness/C03/check.py), engine/jsx, acorn, z3. Fairness beyond "a woken goroutine is scheduled" is outside the claim.',
+             technique='exhaustive exploration of the runtime\'s nondeterministic choices as solver-level choice variables over the real prelude + explicit-state reference model of Go channels; payload equalities by z3'),
+ 'C06': tv('For every (operator, operand type, operand shape) of a generated matrix (~1650 cases quick, ~3200 thorough) the Go one-liner is compiled by the real compiler and the emitted JavaScript, '
+           'with the real prelude helpers ($mul64, $div64, $shiftLeft64, $imul, ...), is executed symbolically for ALL operand values; z3 (integer encoding, with a sound 128-bit bit-vector translation as '
+           'fallback) decides per path that value and panic behaviour equal the operator table of the Go specification. Full operand width except 64-bit division/remainder (operands < 2^8 quick, 2^20 thorough). '
+           'Floating point and complex arithmetic are not covered yet (stated in evidence).', 'DESIGN.md §4 C06'),
+ 'C07': tv('30 alias probes: every copying context (assign, call argument, return, range value, send, select-send, map/slice/field store, interface boxing, method value, value receiver, embedding, '
+           'closure capture, dereference) and aliasing context (pointers to fields/elements/package variables, subslices, append within/over capacity, maps, closures, copy) with symbolic stored values; '
+           'printed values must equal the specification for all int16 pairs and symbolic indices/lengths.', 'DESIGN.md §4 C07'),
+ 'C08': tv('28 templates: run-time checks (array/slice/string index, 2- and 3-index slicing, make, slice-to-array, nil map / pointer / func, divide by zero, type assertion, uncomparable interface comparison, '
+           'close/send on nil/closed channels) with full-width symbolic indices, and defer/recover shapes (LIFO, argument capture, named results, indirect recover, re-panic, nested recover, panic in defer, '
+           'runtime.Error) where a symbolic selector picks the panicking operation; trace and termination must equal the specification on every path.', 'DESIGN.md §4 C08'),
+ 'C13': tv('Overrides are exercised through templates importing math, math/bits, sync/atomic, unicode and gopherjs/nosync (the real overlay merge builds them): bits.Add32 (Mul32/Div32/Rem32 in the thorough tier), '
+           'atomic Add/Swap/CompareAndSwap/Load/Store on int32/uint32/uintptr/int64 vs their sequential specification, nosync Mutex/RWMutex/WaitGroup/Once/Map/Pool histories chosen by symbolic selectors '
+           '(panic exactly where sync would block), unicode case-mapping laws, and math Floor/Ceil/Trunc/Sqrt/Copysign/Signbit/IsNaN/IsInf/Min/Max for every float64 in the SMT FloatingPoint theory.', 'DESIGN.md §4 C13'),
+ 'C14': tv('13 templates over fully symbolic byte strings (every byte 0..255, length 0..4 quick / 0..5 thorough): range, []rune, string(rune) for every int32, string([]rune), indexing, slicing, compare, concat, '
+           '[]byte round trip, copy/append from string, map key, switch, and awkward literals; the trace must equal a UTF-8 reference written from the specification on every path.', 'DESIGN.md §4 C14'),
+ 'C15': tv('Two symbolic keys of each comparable key type (all integer widths, bool, string, named string, float64 incl. NaN/+-0, int/string arrays, structs, nested structs, struct with int64, interface with '
+           'int32 / named int32 / string / nil dynamic types, pointers) go through insert/overwrite/lookup/delete/len; results must be those dictated by Go == for all key values (strings include the separator and '
+           'escape characters). Plus symbolic operation histories over three int8 keys and range-with-deletion.', 'DESIGN.md §4 C15'),
+ 'C16': tv('The C02/C07/C08/C14 corpora and a third of the C06 matrix are rebuilt with -m and the minified linked file is executed symbolically against the same references; plus minify-specific templates '
+           '(identifier exhaustion, shadowing, local types in closures, awkward string literals, adjacent unary/binary minus).', 'DESIGN.md §4 C16'),
 }
 NA_DEFAULT = 'check not built yet in this session (work in progress; see DESIGN.md §8)'
 NA = {}
